@@ -822,6 +822,27 @@ def r_pushdown(prog: Program, col: Collector, refs: Refs, cat: Catalogue, rule: 
                 shrinks.append(n)
             elif isinstance(n, ast.BinOp) and isinstance(n.op, ast.Sub) and isinstance(n.left, ast.Name) and n.left.id == V:
                 shrinks.append(n)
+        # `V - union(inputs of ALL operands)` are the variables no operand mentions: reducing over them (at the top, over the whole
+        # product) moves nothing into a subset of the operands and needs no distributivity
+        terms_p = f.positional[3] if len(f.positional) > 3 else (f.node.args.vararg.arg if f.node.args.vararg else None)
+
+        def over_all_terms(e, depth=0) -> bool:
+            if isinstance(e, ast.Starred):
+                e = e.value
+            if isinstance(e, ast.Name) and depth < 3:
+                if e.id == terms_p:
+                    return True
+                ds = [x.value for x in walk_no_nested(f.node) if isinstance(x, ast.Assign) and len(x.targets) == 1 and isinstance(x.targets[0], ast.Name) and x.targets[0].id == e.id]
+                return len(ds) == 1 and over_all_terms(ds[0], depth + 1)
+            if isinstance(e, (ast.GeneratorExp, ast.ListComp)) and len(e.generators) == 1 and not e.generators[0].ifs:
+                return over_all_terms(e.generators[0].iter, depth + 1)
+            return False
+
+        def is_absent_expr(sh) -> bool:
+            r_ = sh.right if isinstance(sh, ast.BinOp) else sh.value
+            return isinstance(r_, ast.Call) and isinstance(r_.func, ast.Attribute) and r_.func.attr == "union" and len(r_.args) == 1 and over_all_terms(r_.args[0])
+
+        shrinks = [sh for sh in shrinks if not is_absent_expr(sh)]
         if not shrinks:
             continue
         if pinned:
